@@ -66,8 +66,10 @@ func NewTable(file storage.File) *Table {
 }
 
 type TableDocument struct {
-	StartKey    string
-	EndKey      string
+	// Keys are arbitrary bytes: as []byte they are base64 in the JSON checkpoint
+	// document (a string would have its invalid UTF-8 replaced by U+FFFD).
+	StartKey    []byte
+	EndKey      []byte
 	Size        uint64
 	EntriesSize uint64
 	URI         string
@@ -352,8 +354,8 @@ func (t *Table) ensureMetadataLoaded() {
 
 func (t *Table) Document() TableDocument {
 	return TableDocument{
-		StartKey:    string(t.startKey),
-		EndKey:      string(t.endKey),
+		StartKey:    t.startKey,
+		EndKey:      t.endKey,
 		Size:        uint64(t.size),
 		EntriesSize: uint64(t.entriesSize),
 		URI:         t.file.URI(),
